@@ -537,6 +537,27 @@ func (o observed) descr() interface{} {
 	return o.kind
 }
 
+// what the harness reads off a returned result
+func project(log tpm.CommandLog, r *pcrbruteforcer.ReproducePCR0Result) observed {
+	o := observed{kind: "some", loc: r.Locality, res: r}
+	if r.ACMPolicyStatus != nil {
+		o.hasReg, o.reg = true, r.ACMPolicyStatus.Raw()
+	}
+	for _, p := range r.DisabledMeasurements {
+		pos := -1
+		for i := range log {
+			if &log[i] == p {
+				pos = i
+			}
+		}
+		o.disabled = append(o.disabled, pos)
+	}
+	for _, s := range r.OrderSwaps {
+		o.swaps = append(o.swaps, [2]int{s.IdxA, s.IdxB})
+	}
+	return o
+}
+
 func run(log tpm.CommandLog, alg tpm.Algorithm, target []byte, st pcrbruteforcer.SettingsReproducePCR0, timeout time.Duration) observed {
 	type ret struct {
 		r   *pcrbruteforcer.ReproducePCR0Result
@@ -555,23 +576,7 @@ func run(log tpm.CommandLog, alg tpm.Algorithm, target []byte, st pcrbruteforcer
 		if x.r == nil {
 			return observed{kind: "nil"}
 		}
-		o := observed{kind: "some", loc: x.r.Locality, res: x.r}
-		if x.r.ACMPolicyStatus != nil {
-			o.hasReg, o.reg = true, x.r.ACMPolicyStatus.Raw()
-		}
-		for _, p := range x.r.DisabledMeasurements {
-			pos := -1
-			for i := range log {
-				if &log[i] == p {
-					pos = i
-				}
-			}
-			o.disabled = append(o.disabled, pos)
-		}
-		for _, s := range x.r.OrderSwaps {
-			o.swaps = append(o.swaps, [2]int{s.IdxA, s.IdxB})
-		}
-		return o
+		return project(log, x.r)
 	case <-time.After(timeout):
 		return observed{kind: "hang"}
 	}
@@ -741,6 +746,26 @@ func (h *runner) scenario(sc scenario) {
 	}
 	prev := runtime.GOMAXPROCS(0)
 	defer runtime.GOMAXPROCS(prev)
+	// every result handed out by the calls made on this one log, with what was read off it at the time
+	type keptResult struct {
+		idx int
+		res *pcrbruteforcer.ReproducePCR0Result
+		lit string
+		d   map[string]interface{}
+	}
+	var kept []keptResult
+	defer func() {
+		// ... read again after the last call (and after the consumer has been handed them)
+		for _, k := range kept {
+			if now := project(sc.log, k.res).lit(); now != k.lit {
+				k.d["result_read_again"] = now
+				c.OracleFail(k.idx, "a result handed out by an earlier call on the same command log reads differently after later calls (shared memory between results, or between a result and the search)", "pkg/bootflow/subsystems/trustchains/tpm/pcrbruteforcer/reproduce_expected_pcr0.go", k.d)
+			} else {
+				c.OracleOK()
+			}
+		}
+		h.dist("calls-on-one-log", len(gs))
+	}()
 	for _, g := range gs {
 		cur := map[string]interface{}{"GOMAXPROCS": g}
 		for k, v := range base {
@@ -772,6 +797,9 @@ func (h *runner) scenario(sc scenario) {
 		nontriv := len(ents) >= 2 && sc.pert.label != "garbage"
 		idx := c.Add(sc.kind+"/"+sc.pert.label, lit, d, nontriv)
 		site := "pkg/bootflow/subsystems/trustchains/tpm/pcrbruteforcer/reproduce_expected_pcr0.go"
+		if o.kind == "some" {
+			kept = append(kept, keptResult{idx, o.res, o.lit(), d})
+		}
 		// input distribution (evidence)
 		h.dist("GOMAXPROCS", g)
 		h.dist("measurements", len(ents))
@@ -1567,6 +1595,53 @@ func (h *runner) fewForSwaps() {
 	}
 }
 
+// One dropped measurement and one swap among the others, every combination for five
+// measurements (and some with two dropped of six): the reported swap indices count the
+// dropped entries (idxShifts of tryDisabledMeasurementsCombination), which only shows when a
+// swapped entry lies behind a dropped one.
+func (h *runner) dropAndSwap() {
+	rng := h.c.Rng
+	mk := func(alg tpm.Algorithm, n int) tpm.CommandLog {
+		t := bootLog(h.randReg(), []uint8{0, 3}[rng.Intn(2)], false, nil)
+		for i := 1; i < n; i++ {
+			if err := t.TPMExtend(ctxBG, 0, alg, h.randDigest(alg), nil); err != nil {
+				panic(err)
+			}
+		}
+		return t.CommandLog
+	}
+	i := 0
+	run := func(alg tpm.Algorithm, log tpm.CommandLog, n int, drop []int, sw [2]int) {
+		st := pcrbruteforcer.SettingsReproducePCR0{MaxDisabledMeasurements: len(drop) + 1, MaxReorders: 1}
+		st.MaxACMPolicyLinearDistance = 2
+		p := perturbation{label: "in", loc: []uint8{0, 3}[i%2], drop: drop, acm: acmChange{kind: "none"}, swaps: [][2]int{sw}}
+		if drop[0] != 0 && i%3 == 0 {
+			p.acm = acmChange{kind: "dec", dec: 1}
+		}
+		h.scenario(scenario{kind: "e2e-drop-and-swap", log: log, alg: alg, st: st, pert: p, gs: []int{gomaxprocs[i%len(gomaxprocs)]},
+			source: fmt.Sprintf("boot simulation (PCR0_DATA) + %d appended TPMExtend; measurements %v dropped, then #%d and #%d of the remaining ones swapped, MaxReorders=1", n-1, drop, sw[0], sw[1])})
+		i++
+	}
+	alg := h.randBank()
+	log := mk(alg, 5)
+	for d := 0; d < 5; d++ {
+		for a := 0; a < 4; a++ {
+			for b := a + 1; b < 4; b++ {
+				run(alg, log, 5, []int{d}, [2]int{a, b})
+			}
+		}
+	}
+	alg = h.randBank()
+	log = mk(alg, 6)
+	for k := 0; k < 6; k++ {
+		drop := rng.Perm(6)[:2]
+		sort.Ints(drop)
+		q := rng.Perm(4)[:2]
+		sort.Ints(q)
+		run(alg, log, 6, drop, [2]int{q[0], q[1]})
+	}
+}
+
 // command logs as the consumer (printReproducePCR0Result) distinguishes them: TPMInit as the
 // first entry with the locality of the answer / with the other one, TPMInit not the first
 // entry, TPMInit twice, no TPMInit; answers without and with a swap, a dropped measurement,
@@ -2064,6 +2139,7 @@ func main() {
 	}
 
 	h.multiSwaps()
+	h.dropAndSwap()
 	h.maxDisabledBoundary()
 	h.fewForSwaps()
 	h.toolShapes()
@@ -2087,6 +2163,6 @@ func main() {
 
 	c.Finish("e2e: command logs from boot simulations on fake_intel_firmware.fd (PCR0_DATA + 0..6 further measurements, appended TPMExtend, repeated digests, other-bank/other-PCR noise) and hand-made logs (no PCR0_DATA, PCR0_DATA not first / twice / inconsistent digest, aliasing digests); " +
 		"targets by known perturbations inside the search space (locality 0|3, dropped subset, decrement 0..limit-1 or bit flips, disjoint swaps) and just outside (decrement = limit and above, one more dropped/swapped than allowed, locality 1|2|4, 3-cycle, flips beyond the limit, everything dropped) and random bytes; both banks; random settings; each under GOMAXPROCS " + fmt.Sprint(gomaxprocs) +
-		"; e2e-slice-boundary: the dropped subset is the first/last combination of a goroutine's ID slice (k = 1..3 of 4..7 measurements, GOMAXPROCS 2,3,5,16); e2e-limit-2: MaxACMPolicyLinearDistance=2, register off by 2 and by 1 under GOMAXPROCS 1,2,3,4,5,16,64; e2e-many-winners: PCR0_DATA + 5..13 identical measurements, one dropped, decrement 3000 of 6000 (more succeeding goroutines than GOMAXPROCS+1); e2e-multi-swaps: every set of two disjoint swaps of 5 measurements and four sets of three swaps of 6, MaxReorders = number of swaps; e2e-comb-workers: MaxACMPolicyCombinatorialDistance=3 (41664 three-bit candidates, the first level that is split among 2..4 bruteforcer workers), register with 3 bits flipped chosen by combination ID (inside / first / last of a worker's slice) or 4 bits flipped (every worker scans its whole slice), GOMAXPROCS 2,3,4,5,16,64; linear-hook: per-goroutine offered registers for " + fmt.Sprint(len(limits)) + " limits x GOMAXPROCS; comb-hook: per-context summary of the registers combinatorialSearch.Process offers for distance limits 0..3 x GOMAXPROCS (limit 4 under GOMAXPROCS 16 through the oracle only), comb-hook-full: distance limits 0, 1, 2 (GOMAXPROCS 2, 3, 16) element by element; comb-hook-hit: accepted bit masks at and beyond the limit; e2e-maxdisabled-boundary: MaxDisabledMeasurements = n-1, n, n+1 for n = 2, 3 measurements with the largest searched subset and one more dropped; e2e-few-for-swaps: 1..3 measurements with MaxReorders 1..3; e2e-tool-shapes: logs with TPMInit first (locality of the answer / the other one), not first, twice, absent, and answers with a swap, a dropped measurement, a corrected register, both; every returned result is also handed, with the same log, to pcr0tool's printReproducePCR0Result (bound with go:linkname, stdout captured) and its verdict is compared with Model/PCR0Tool.v inside Coq and judged by the oracle (a sound result must be reproduced; the two known signatures are open findings); the command log is fingerprinted before and after every call (commands, digests, PCR0_DATA source bytes); input_distribution dist/<dimension>=<value> counts the generated conditions per run of ReproduceExpectedPCR0, a constant dimension is a failure; both hooks run with an instrumented init/check that notices a context that is inside check() on two goroutines at once. A case is non-trivial when the log has >= 2 PCR0 measurements and the target is not random bytes (linear-hook: limit > 1, comb-hook: limit > 0); distinct = distinct Gallina literal")
+		"; e2e-slice-boundary: the dropped subset is the first/last combination of a goroutine's ID slice (k = 1..3 of 4..7 measurements, GOMAXPROCS 2,3,5,16); e2e-limit-2: MaxACMPolicyLinearDistance=2, register off by 2 and by 1 under GOMAXPROCS 1,2,3,4,5,16,64; e2e-many-winners: PCR0_DATA + 5..13 identical measurements, one dropped, decrement 3000 of 6000 (more succeeding goroutines than GOMAXPROCS+1); e2e-multi-swaps: every set of two disjoint swaps of 5 measurements and four sets of three swaps of 6, MaxReorders = number of swaps; e2e-comb-workers: MaxACMPolicyCombinatorialDistance=3 (41664 three-bit candidates, the first level that is split among 2..4 bruteforcer workers), register with 3 bits flipped chosen by combination ID (inside / first / last of a worker's slice) or 4 bits flipped (every worker scans its whole slice), GOMAXPROCS 2,3,4,5,16,64; linear-hook: per-goroutine offered registers for " + fmt.Sprint(len(limits)) + " limits x GOMAXPROCS; comb-hook: per-context summary of the registers combinatorialSearch.Process offers for distance limits 0..3 x GOMAXPROCS (limit 4 under GOMAXPROCS 16 through the oracle only), comb-hook-full: distance limits 0, 1, 2 (GOMAXPROCS 2, 3, 16) element by element; comb-hook-hit: accepted bit masks at and beyond the limit; e2e-drop-and-swap: every (one dropped measurement, one swap among the others) of five measurements and six cases with two dropped of six; e2e-maxdisabled-boundary: MaxDisabledMeasurements = n-1, n, n+1 for n = 2, 3 measurements with the largest searched subset and one more dropped; e2e-few-for-swaps: 1..3 measurements with MaxReorders 1..3; e2e-tool-shapes: logs with TPMInit first (locality of the answer / the other one), not first, twice, absent, and answers with a swap, a dropped measurement, a corrected register, both; every returned result is also handed, with the same log, to pcr0tool's printReproducePCR0Result (bound with go:linkname, stdout captured) and its verdict is compared with Model/PCR0Tool.v inside Coq and judged by the oracle (a sound result must be reproduced; the two known signatures are open findings); the command log is fingerprinted before and after every call (commands, digests, PCR0_DATA source bytes), and every result handed out by the calls made on one log (one call per GOMAXPROCS value) is read again after the last of them; input_distribution dist/<dimension>=<value> counts the generated conditions per run of ReproduceExpectedPCR0, a constant dimension is a failure; both hooks run with an instrumented init/check that notices a context that is inside check() on two goroutines at once. A case is non-trivial when the log has >= 2 PCR0 measurements and the target is not random bytes (linear-hook: limit > 1, comb-hook: limit > 0); distinct = distinct Gallina literal")
 	_ = strings.Join
 }
